@@ -50,6 +50,10 @@ pub enum COp {
     Clear,
     /// `stats()`: reads the books while other tasks work
     Stats,
+    /// one pass of the DiskCache background cleanup task (`new_with_background_tasks`): the
+    /// calling task advances the paused clock of the runtime the cache was built on and polls the
+    /// spawned task, so the pass runs on the caller's thread, under the caller's hooks
+    Cleanup,
 }
 
 impl COp {
@@ -62,12 +66,13 @@ impl COp {
             COp::Remove(k) => format!("remove {k}"),
             COp::Clear => "clear".to_string(),
             COp::Stats => "stats".to_string(),
+            COp::Cleanup => "cleanup".to_string(),
         }
     }
     fn key(&self) -> Option<&'static str> {
         match self {
             COp::Get(k) | COp::Contains(k) | COp::Put(k, _) | COp::PutX(k, _) | COp::Remove(k) => Some(k),
-            COp::Clear | COp::Stats => None,
+            COp::Clear | COp::Stats | COp::Cleanup => None,
         }
     }
     /// May the two operations race for the same entry? `clear` touches every key, `stats` none.
@@ -121,6 +126,9 @@ pub enum Kind {
     Layered,
     /// cascette-protocol's ProtocolCache over a DiskCache (string keys, sync API bridging to async)
     Protocol,
+    /// DiskCache built with `new_with_background_tasks` on a private runtime with a paused clock:
+    /// the cleanup task only runs when a `Cleanup` op advances that clock
+    DiskBg { max_files: usize },
 }
 
 enum AnyCache {
@@ -128,6 +136,40 @@ enum AnyCache {
     Disk(DiskCache<SKey>, #[allow(dead_code)] Scratch),
     Layered(cascette_cache::MultiLayerCacheImpl<SKey>, #[allow(dead_code)] Scratch),
     Protocol(cascette_protocol::cache::ProtocolCache, #[allow(dead_code)] Scratch),
+    /// field order = drop order: the cache (aborts its tasks) before the runtime that polls them
+    DiskBg(DiskCache<SKey>, tokio::runtime::Runtime, #[allow(dead_code)] Scratch),
+}
+
+const BG_INTERVAL: Duration = Duration::from_secs(300);
+
+/// One tick of the background tasks' interval on the cache's private runtime.
+fn bg_tick(rt: &tokio::runtime::Runtime) {
+    rt.block_on(async {
+        tokio::time::advance(BG_INTERVAL + Duration::from_secs(1)).await;
+        for _ in 0..3 {
+            tokio::task::yield_now().await;
+        }
+    });
+}
+
+fn build_disk_bg(dir: &std::path::Path, max_files: usize) -> (DiskCache<SKey>, tokio::runtime::Runtime) {
+    let rt = tokio::runtime::Builder::new_current_thread().enable_all().start_paused(true).build().expect("tokio runtime (paused clock)");
+    let mut cfg = DiskCacheConfig::new(dir).with_max_files(max_files).with_default_ttl(Duration::from_secs(3600)).with_subdirectories(false, 1);
+    cfg.cleanup_interval = BG_INTERVAL;
+    // the sync task's first tick (it spawns the `sync` command) fires with the construction below;
+    // the next one is ten years of the paused clock away
+    cfg.sync_interval = Duration::from_secs(10 * 365 * 24 * 3600);
+    let c = rt.block_on(async {
+        let c = DiskCache::new_with_background_tasks(cfg).expect("disk cache with background tasks");
+        // the interval's first tick is immediate: let that pass run now, on the empty cache
+        tokio::task::yield_now().await;
+        tokio::time::advance(Duration::from_millis(2)).await;
+        for _ in 0..3 {
+            tokio::task::yield_now().await;
+        }
+        c
+    });
+    (c, rt)
 }
 
 impl AnyCache {
@@ -162,10 +204,17 @@ impl AnyCache {
                         Err(e) => format!("Err({e})"),
                     },
                     COp::Stats => stats_result(block_on(c.stats()).map_err(|e| e.to_string())),
+                    COp::Cleanup => {
+                        if let AnyCache::DiskBg(_, rt, _) = self {
+                            bg_tick(rt);
+                        }
+                        "ok".into()
+                    }
                 }
             }};
         }
         match self {
+            AnyCache::DiskBg(c, _, _) => run!(c),
             AnyCache::Mem(c) => run!(c),
             AnyCache::Disk(c, _) => run!(c),
             AnyCache::Layered(c, _) => run!(c),
@@ -190,7 +239,7 @@ impl AnyCache {
                     Err(e) => format!("Err({e})"),
                 },
                 COp::Remove(_) => "false".into(),
-                COp::Stats => "ok".into(),
+                COp::Stats | COp::Cleanup => "ok".into(),
                 COp::Clear => match c.clear() {
                     Ok(()) => "ok".into(),
                     Err(e) => format!("Err({e})"),
@@ -203,14 +252,14 @@ impl AnyCache {
     fn size(&self) -> Result<Option<usize>, String> {
         match self {
             AnyCache::Mem(c) => block_on(c.size()).map(Some).map_err(|e| e.to_string()),
-            AnyCache::Disk(c, _) => block_on(c.size()).map(Some).map_err(|e| e.to_string()),
+            AnyCache::Disk(c, _) | AnyCache::DiskBg(c, _, _) => block_on(c.size()).map(Some).map_err(|e| e.to_string()),
             AnyCache::Layered(..) | AnyCache::Protocol(..) => Ok(None),
         }
     }
     fn usage(&self) -> Result<Option<usize>, String> {
         match self {
             AnyCache::Mem(c) => block_on(c.stats()).map(|s| Some(s.memory_usage_bytes)).map_err(|e| e.to_string()),
-            AnyCache::Disk(c, _) => block_on(c.stats()).map(|s| Some(s.memory_usage_bytes)).map_err(|e| e.to_string()),
+            AnyCache::Disk(c, _) | AnyCache::DiskBg(c, _, _) => block_on(c.stats()).map(|s| Some(s.memory_usage_bytes)).map_err(|e| e.to_string()),
             AnyCache::Layered(..) | AnyCache::Protocol(..) => Ok(None),
         }
     }
@@ -235,6 +284,7 @@ impl CacheBody {
             Kind::Disk { .. } => "disk",
             Kind::Layered => "layered",
             Kind::Protocol => "protocol",
+            Kind::DiskBg { .. } => "disk-bg",
         }
     }
     fn keys(&self) -> Vec<&'static str> {
@@ -370,6 +420,17 @@ impl SeqSpec for MapSpec {
                     vec![]
                 }
             }
+            // a cleanup pass collects expired entries (invisible either way); above `max_files` it
+            // also evicts live ones, which the lenient bodies accept at the read that misses them
+            "cleanup" => {
+                if result == "ok" {
+                    let mut s = st.clone();
+                    s.retain(|_, v| !v.1);
+                    vec![s, st.clone()]
+                } else {
+                    vec![]
+                }
+            }
             // reads the books, changes nothing
             "stats" => {
                 if result == "ok" {
@@ -400,6 +461,7 @@ impl SchedBody for CacheBody {
             Kind::Disk { subdirs } => format!("DiskCache(subdirs={subdirs})"),
             Kind::Layered => "MultiLayerCacheImpl[Memory(1000),Disk]".to_string(),
             Kind::Protocol => "ProtocolCache(DiskCache)".to_string(),
+            Kind::DiskBg { max_files } => format!("DiskCache(background cleanup task, max_files={max_files})"),
         };
         format!("{k} setup[{}] tasks[{}]", s.join("; "), t.join(" || "))
     }
@@ -444,6 +506,11 @@ impl SchedBody for CacheBody {
                 let sc = Scratch::new("c11");
                 let cfg = cascette_protocol::config::CacheConfig { cache_dir: Some(sc.path.join("cache")), ..Default::default() };
                 AnyCache::Protocol(cascette_protocol::cache::ProtocolCache::new(&cfg).expect("protocol cache"), sc)
+            }
+            Kind::DiskBg { max_files } => {
+                let sc = Scratch::new("c11");
+                let (c, rt) = build_disk_bg(&sc.path.join("cache"), *max_files);
+                AnyCache::DiskBg(c, rt, sc)
             }
         };
         // sequential set-up on the explorer thread (no hook installed here)
@@ -1113,6 +1180,36 @@ fn bodies(tier: Tier) -> Vec<CacheBody> {
             out.push(CacheBody { kind: kind.clone(), setup: vec![COp::Put("k", "a")], tasks: vec![vec![COp::Stats, COp::Stats], vec![COp::Get("k"), COp::Clear]], evicting: false, reopen: false });
         }
     }
+    // ---- DiskCache with its background cleanup task: one pass of the task (expired entries out,
+    // index entry and file) against every foreground operation on the same key, from pre-states
+    // with an expired entry, a live one, both; and with the file limit exceeded (the pass evicts)
+    let bsingle: Vec<Vec<COp>> = vec![
+        vec![COp::Put("k", "b")],
+        vec![COp::Get("k")],
+        vec![COp::Contains("k")],
+        vec![COp::Remove("k")],
+        vec![COp::PutX("k", "c")],
+        vec![COp::Clear],
+        vec![COp::Put("k", "b"), COp::Get("k")],
+        vec![COp::Get("k"), COp::Put("k", "d")],
+        vec![COp::Stats],
+    ];
+    for pre in [vec![COp::PutX("k", "a")], vec![COp::PutX("k", "a"), COp::Put("j", "d")], vec![COp::Put("k", "a")]] {
+        for t in &bsingle {
+            out.push(CacheBody { kind: Kind::DiskBg { max_files: 1000 }, setup: pre.clone(), tasks: vec![vec![COp::Cleanup], t.clone()], evicting: false, reopen: false });
+        }
+    }
+    for t in &bsingle[..6] {
+        // three live entries over max_files = 2: the pass evicts down to 90 % (one entry)
+        out.push(CacheBody { kind: Kind::DiskBg { max_files: 2 }, setup: vec![COp::Put("k", "a"), COp::Put("j", "d"), COp::Put("i", "c")], tasks: vec![vec![COp::Cleanup], t.clone()], evicting: true, reopen: false });
+    }
+    if tier == Tier::Thorough {
+        for i in 0..6 {
+            for j in i..6 {
+                out.push(CacheBody { kind: Kind::DiskBg { max_files: 1000 }, setup: vec![COp::PutX("k", "a")], tasks: vec![vec![COp::Cleanup], bsingle[i].clone(), bsingle[j].clone()], evicting: false, reopen: false });
+            }
+        }
+    }
     // ---- ProtocolCache over DiskCache: store/get/clear through the sync bridge
     let psingle: Vec<COp> = vec![COp::Get("k"), COp::Put("k", "b"), COp::PutX("k", "c"), COp::Clear, COp::Put("j", "d")];
     for pre in [vec![], vec![COp::Put("k", "a")]] {
@@ -1160,9 +1257,15 @@ pub fn run(tier: Tier, seed: u64) -> i32 {
     rep.assume("pre-state 'new instance on a filled directory' (DiskCache bodies marked so): the set-up runs sequentially on a first instance with the same configuration, which is dropped before the tasks start on a second one; its signatures name the overlapping operations (keys renamed) instead of the preempted sites, because every schedule into the same lock window preempts at a different mix of rwlock points");
     rep.assume("a concurrent stats() must return without failing; its hit/miss figures are not judged; it can only be preempted inside AtomicCacheMetrics::fast_snapshot if the repository carries the scheduling point metrics.snapshot.hit (without it the stats bodies explore the coarser interleavings only)");
     let bound = tier.pick(2, 3);
-    let budget = Duration::from_secs(tier.pick(40, 1500));
+    let budget = Duration::from_secs(std::env::var("VERIF_C11_BUDGET_S").ok().and_then(|s| s.parse().ok()).unwrap_or(tier.pick(150, 1500)));
     let start = std::time::Instant::now();
-    let bs = bodies(tier);
+    let mut bs = bodies(tier);
+    // debugging aid: only the bodies whose name contains the given text (the evidence says so)
+    let only = std::env::var("VERIF_C11_ONLY").ok();
+    if let Some(f) = &only {
+        bs.retain(|b| b.name().contains(f.as_str()));
+        rep.cap_hit(&format!("VERIF_C11_ONLY override in effect: {f}"));
+    }
     let mut total_exec = 0u64;
     let mut total_points = 0u64;
     let mut nontrivial = 0u64;
@@ -1191,7 +1294,10 @@ pub fn run(tier: Tier, seed: u64) -> i32 {
             rep.sample(serde_json::json!({"body": b.name(), "executions": st.executions, "by_preemptions": st.by_preemptions}));
         }
     }
-    let dbs = dyn_bodies(tier);
+    let mut dbs = dyn_bodies(tier);
+    if only.is_some() {
+        dbs.clear();
+    }
     for (bi, b) in dbs.iter().enumerate() {
         let Some(left) = budget.checked_sub(start.elapsed()) else {
             rep.cap_hit(&format!("wall-clock budget hit before DynamicContainer body {bi} of {}", dbs.len()));
